@@ -355,6 +355,11 @@ def _same_value(facts, f, a, b):
 def auto_discharge(facts, f, defs, s, ctx):
     """Return a reason string when an automatic pattern proves the site harmless, else None."""
     t = s["term"]
+    if s["kind"] in ("index", "vec-index") or (s["kind"] == "assert" and s["what"] == "BoundsCheck"):
+        import idxproof
+        why = idxproof.proof(facts, f, s.get("line"))
+        if why:
+            return why
     if s["kind"] == "assert":
         a = s["what"]
         ops = t.get("ovf_ops")
